@@ -103,7 +103,7 @@ class Prim:
 
 class Target:
     def __init__(self, module, name, params, ret, family, lean=None, drop=(), consts=None, only=None, fuels=(), locals=None, localsorts=None,
-                 fallthrough_none=False, raises=False):
+                 fallthrough_none=False, raises=False, assume_none=(), result_var=None):
         self.module, self.name, self.params, self.ret, self.family = module, name, list(params), ret, family
         self.lean = lean or (module[:-3].replace('/', '_') + '_' + name)
         self.drop = set(drop)                   # parameters that are not value-level arguments (PLUMBING parameters are added)
@@ -112,6 +112,8 @@ class Target:
         self.locals = dict(locals or {})        # reviewed signatures of nested `def`s: name -> ([parameter sorts], result sort)
         self.localsorts = dict(localsorts or {})  # sort of a local that starts as the empty list `x = []`
         self.fallthrough_none = fallthrough_none  # reviewed: falling off the end (Python returns None) makes every caller raise: `none`
+        self.assume_none = set(assume_none)    # reviewed slice: optional PARAMETERS taken to be None (`if p is None: A else: B` -> A)
+        self.result_var = result_var            # reviewed slice: the definition is the value of this local right after its first assignment
         self.force_raises = raises              # the body calls a primitive that may raise
         self.fuels = list(fuels)                # reviewed iteration bounds of the `while` loops, in source order (Python expressions)
 
@@ -285,9 +287,32 @@ class Tr:
             return f'(if {c} then {a} else {b})', sa
         if isinstance(node, ast.ListComp):
             if len(node.generators) != 1 or node.generators[0].ifs or node.generators[0].is_async \
-                    or not isinstance(node.generators[0].target, ast.Name):
+                    or not isinstance(node.generators[0].target, (ast.Name, ast.Tuple)):
                 raise self.err(node, 'list comprehension outside the subset')
+            g0 = node.generators[0]
+            if len(node.generators) == 1 and not g0.ifs and isinstance(g0.target, ast.Tuple) and len(g0.target.elts) == 2 \
+                    and all(isinstance(e, ast.Name) for e in g0.target.elts) and isinstance(g0.iter, ast.Call) \
+                    and dotted(g0.iter.func) == 'zip' and len(g0.iter.args) == 2 and not g0.iter.keywords:
+                # [e for a, b in zip(xs, ys)]
+                xs, sx = self._E(g0.iter.args[0], env)
+                ys, sy = self._E(g0.iter.args[1], env)
+                if f'elems:{sy}' in self.fam.prims:                 # a scalar-or-sequence argument iterated as its entries
+                    q = self.fam.prims[f'elems:{sy}']
+                    ys, sy = f'(P.{q.field} {ys})', q.ret
+                if sx not in LIST_ELEM or sy not in LIST_ELEM:
+                    raise self.err(node, f'zip over sorts {sx},{sy}')
+                env2 = dict(env)
+                env2[g0.target.elts[0].id], env2[g0.target.elts[1].id] = LIST_ELEM[sx], LIST_ELEM[sy]
+                body, sb = self._E(node.elt, env2)
+                back = {'nat': 'natlist', 'natlit': 'natlist', 'int': 'intlist', 'K': 'vec'}.get(sb)
+                if back is None:
+                    raise self.err(node, f'comprehension yields sort {sb}')
+                zz = self.fresh('zz')
+                return (f'(List.map (fun {zz} => let {lname(g0.target.elts[0].id)} := {zz}.1; let {lname(g0.target.elts[1].id)} := {zz}.2; '
+                        f'{body}) (List.zip {xs} {ys}))'), back
             g = node.generators[0]
+            if not isinstance(g.target, ast.Name):
+                raise self.err(node, 'list comprehension outside the subset')
             if isinstance(g.iter, ast.Call) and dotted(g.iter.func) == 'range' and len(g.iter.args) == 1 and not g.iter.keywords:
                 n_, _ = self.E(g.iter.args[0], env, 'nat')
                 seq, ss = f'(List.range {n_})', 'natlist'
@@ -663,8 +688,17 @@ class Tr:
             a, sa = self._E(node.args[0], env)
             if sa in ('int', 'nat'):
                 return a, sa                           # int(x) of a Python int
+        if d == 'np.array' and len(node.args) == 1 and not node.keywords and isinstance(node.args[0], ast.BinOp) \
+                and isinstance(node.args[0].op, ast.Mult) and isinstance(node.args[0].left, ast.List) \
+                and len(node.args[0].left.elts) == 1 and 'np.array([x]*n)' in self.fam.prims:
+            p = self.fam.prims['np.array([x]*n)']
+            a, _ = self.E(node.args[0].left.elts[0], env, p.args[0])
+            n, _ = self.E(node.args[0].right, env, p.args[1])
+            return f'(P.{p.field} {a} {n})', p.ret
         if d == 'len' and len(node.args) == 1 and not node.keywords:
             a, sa = self._E(node.args[0], env)
+            if f'len:{sa}' in self.fam.prims:
+                return f'(P.{self.fam.prims["len:" + sa].field} {a})', 'nat'
             if sa in LIST_ELEM:
                 return f'(List.length {a})', 'nat'
         if d == 'np.min' and len(node.args) == 1 and not node.keywords:
@@ -1302,6 +1336,61 @@ class Tr:
         lines += [pad + u for u in unpack]
         return lines + self.S(rest, dict(env), k, ind)
 
+    def _slice(self, stmts):
+        """the reviewed slice of a body (Target.assume_none / Target.result_var): tests of the parameters assumed None are
+        resolved, the deprecated-alias block `if out is None and output is not None: …` (output a dropped parameter) is
+        removed, and the statement list ends with `return <result_var>` right after the first assignment of that local"""
+        t = self.t
+
+        def is_none_test(test):
+            if isinstance(test, ast.Compare) and len(test.ops) == 1 and isinstance(test.left, ast.Name) \
+                    and isinstance(test.comparators[0], ast.Constant) and test.comparators[0].value is None:
+                if test.left.id in t.assume_none and isinstance(test.ops[0], ast.Is):
+                    return True
+                if test.left.id in t.assume_none and isinstance(test.ops[0], ast.IsNot):
+                    return False
+                if test.left.id in self.drop and isinstance(test.ops[0], ast.IsNot):
+                    return False                        # a dropped (deprecated alias) parameter is never given
+                if test.left.id in self.drop and isinstance(test.ops[0], ast.Is):
+                    return True
+            if isinstance(test, ast.BoolOp) and isinstance(test.op, ast.And):
+                vs = [is_none_test(v) for v in test.values]
+                if any(v is False for v in vs):
+                    return False
+                if all(v is True for v in vs):
+                    return True
+            return None
+
+        def walk(ss):
+            out = []
+            for st in ss:
+                if isinstance(st, ast.If):
+                    v = is_none_test(st.test)
+                    if v is True:
+                        self.note('slice-assumes-None', st.test)
+                        sub, done = walk(st.body)
+                    elif v is False:
+                        self.note('slice-assumes-None', st.test)
+                        sub, done = walk(st.orelse)
+                    else:
+                        sub, done = [st], False
+                    out += sub
+                    if done:
+                        return out, True
+                    continue
+                out.append(st)
+                if t.result_var and isinstance(st, ast.Assign) and len(st.targets) == 1 \
+                        and isinstance(st.targets[0], ast.Name) and st.targets[0].id == t.result_var:
+                    r = ast.Return(value=ast.Name(id=t.result_var, ctx=ast.Load()))
+                    ast.copy_location(r, st); ast.fix_missing_locations(r)
+                    out.append(r)
+                    return out, True
+            return out, False
+        res, done = walk(stmts)
+        if t.result_var and not done:
+            raise TranslationError(f'{t.module}:{t.name}: the sliced local {t.result_var} is not assigned on the reviewed path')
+        return res
+
     # ---- definition ------------------------------------------------------------------------------
     def definition(self):
         t, f = self.t, self.f
@@ -1313,8 +1402,11 @@ class Tr:
         if have != want:
             raise TranslationError(f'{t.module}:{t.name}: parameters {have} differ from the reviewed signature {want}')
         env = {p: s for p, s in t.params}
+        stmts = list(f.body)
+        if t.assume_none or t.result_var:
+            stmts = self._slice(stmts)
         try:
-            body = self.S(list(f.body), env, None, 1)
+            body = self.S(stmts, env, None, 1)
         except SortChange as sc:
             raise TranslationError(f'{t.module}:{t.name}: variable {sc} changes sort outside a loop')
         ret = LEAN_TYPE[t.ret]
@@ -1541,6 +1633,21 @@ THIN = Family(
     }, prop='C15')
 MUTATING['_thin'] = 0
 
+LEAN_TYPE['zarg'] = 'Z'
+ZOOM = Family(
+    'zoom shape', ['K', 'A', 'Z'], '[Add K] [Sub K] [Mul K] [Div K]', 'ZoomPrims',
+    {
+        '_maybe_filter': Prim('maybe_filter', ['arr', 'nat', 'bool'], 'arr', drop_kw={'dtype'}, pos=[0, 1, 3]),
+        'np.array': Prim('as_array', ['zarg'], 'zarg', doc='`np.array(zoom)` of a number or a sequence'),
+        '.ndim:zarg': Prim('zndim', ['zarg'], 'nat'),
+        '.ndim:arr': Prim('ndim', ['arr'], 'nat'),
+        '.shape:arr': Prim('shape', ['arr'], 'natlist'),
+        'np.array([x]*n)': Prim('replicate', ['zarg', 'nat'], 'zarg', doc='`np.array([zoom] * n)` of a 0-d array'),
+        'len:zarg': Prim('zlen', ['zarg'], 'nat'),
+        'elems:zarg': Prim('elems', ['zarg'], 'vec', doc='the entries of a 1-d array, as iterated by `zip`'),
+        'int': Prim('trunc', ['K'], 'int', doc='Python `int(x)` of a float: truncation toward zero'),
+    }, extra_params=EMBED, prop='C18')
+
 HISTO = Family(
     'histogram thresholds', ['H', 'G'], '', 'HistPrims',
     {
@@ -1608,6 +1715,10 @@ TARGETS = [
     Target('morph.py', 'disk', [('radius', 'nat'), ('dim', 'nat')], 'bfld', DISK,
            consts={'bool': ('P.bool_dtype', 'dtype'), 'float': ('P.float_dtype', 'dtype')}),
     Target('thin.py', 'thin', [('binimg', 'arr'), ('max_iter', 'int')], 'arr', THIN, consts={'bool': ('P.bool_dtype', 'dtype')}),
+    # a reviewed SLICE of interpolate.zoom: the path `out is None` (and the deprecated alias `output` not given), up to the
+    # assignment of `output_shape` - the shape arithmetic `int(s * z)` with the scalar-to-vector broadcast and both checks
+    Target('interpolate.py', 'zoom', [('array', 'arr'), ('zoom', 'zarg'), ('order', 'nat'), ('prefilter', 'bool')], 'intlist', ZOOM,
+           lean='interpolate_zoom_output_shape', drop={'mode', 'cval', 'output'}, assume_none={'out'}, result_var='output_shape'),
     Target('euler.py', 'euler', [('f', 'arr'), ('n', 'nat'), ('mode', 'str')], 'res', EULER,
            consts={'_euler_lookup8': ('P.lookup8', 'tbl'), '_euler_lookup4': ('P.lookup4', 'tbl'), '_powers': ('P.powers', 'kern')}),
     # `out` is a LOCAL here (the array that fixes the output shape), not a destination-buffer parameter: it is kept
@@ -1618,7 +1729,7 @@ TARGETS = [
     Target('convolve.py', 'wavelet_center', [('f', 'arr'), ('border', 'int'), ('dtype', 'dtype'), ('cval', 'K')], 'arr', WAVE, raises=True),
     Target('convolve.py', 'wavelet_decenter', [('w', 'arr'), ('oshape', 'intlist'), ('border', 'int')], 'arr', WAVE, raises=True),
 ]
-FAMILIES = [MORPH, CONV, THRESH, HISTO, LAPL, RC, SOFT, EXTREMA, STRETCH, COLORS, COLORS2, WAVE, CIRCLE, RESIZE, EULER, LABELED, DISK, THIN]
+FAMILIES = [MORPH, CONV, THRESH, HISTO, LAPL, RC, SOFT, EXTREMA, STRETCH, COLORS, COLORS2, WAVE, CIRCLE, RESIZE, EULER, LABELED, DISK, THIN, ZOOM]
 
 
 def _find_function(tree, name):
